@@ -21,15 +21,18 @@ LEVEL_TEXT = ('Lean 4 theorems over a line-by-line model of expandDef, Definitio
               'match_delimited_is_tex), hence one macro call = one TeX call (call_step_refines); the same for \\newcommand macros with absent/present optional argument (newcommand_call_refines, optional_default, '
               'optional_present_is_tex); \\let keeps the meaning at \\let time under any later redefinitions (let_snapshot); \\csname builds the named control sequence and \\expandafter expands the second token '
               'exactly once, as TeX (csname_builds_name, expandafter_reorders); PROGRAM LEVEL: for every program of the fragment {\\def, \\gdef, calls, groups, \\let, \\relax} and every fuel, whenever the TeX '
-              'evaluator prints v the model prints v (run_eq_texRun_fragment: simulation over frame stack vs saved tables, with fuel monotonicity of the mutual loop). '
+              'evaluator prints v the model prints v (run_eq_texRun_fragment: simulation over frame stack vs saved tables, with fuel monotonicity of the mutual loop); '
+              'extended to \\newcommand/\\renewcommand and \\csname (run_eq_texRun_noexpandafter_partial, both variants of D49) and to the WHOLE macro language with \\expandafter, started from the model\'s own initial frame '
+              '(run_eq_texRun_language_partial, repaired variant; expansion_refines_partial = one step of TeX\'s expand incl. nested \\csname/\\expandafter; fragment_run_is_texProgram_partial). '
+              'The fragment evaluator texRun fragOk is executed by the driver on every generated program and must agree with the full evaluator, the repaired model and the real interpreter. '
               'Known finding D49 (\\expandafter executes an unexpandable assignment) has a dual-variant model: theorem for the repaired variant, kernel-checked counterexample for the code as is. '
-              'Programs that also use \\newcommand, \\csname, \\expandafter are tied at program level by the document-level correspondence stream (real interpreter vs model vs TeX evaluator on generated NF-prog programs).')
+              'Outside the proved fragment (## in macros without parameter text, \\ifx in bodies, the code as is with \\expandafter) programs are tied by the document-level correspondence stream (real interpreter vs model vs TeX evaluator on generated NF-prog programs).')
 LEVEL_NOTE = ('Trusted: Lean kernel (axioms propext, Classical.choice, Quot.sound only), the correspondence harness and its program generator, the C01 tokenizer model used to tokenize programs for the Lean side, CPython. '
               'Not covered: \\edef/\\xdef as true expansion, \\long/\\global prefixes, #{ patterns (the code handles them differently from TeX; outside the stated quantifier), character \\let, \\ifx; '
-              'the full-language program-level statement run_eq_texRun_statement is stated, not proved.')
+              'run_eq_texRun_statement (filter namesOk instead of fragOk) is stated, not proved: missing are ## in parameterless macros and \\ifx tokens in replacement texts.')
 TECHNIQUE = 'Lean 4 proofs (induction over replacement text / parameter text / token stream; simulation with fuel monotonicity) + independent executable TeX semantics + differential correspondence at component and document level'
 TRUSTED = ['Spec/TeXMacro.lean is the independent evaluation (written from TeXbook ch. 20; no TeX engine is installed)',
-           'program-level equality is proved for the fragment {def, gdef, calls, groups, let, relax}; programs with \\newcommand/\\csname/\\expandafter are tied by the prog stream']
+           'program-level equality is proved for the whole macro language under the filter fragOk (repaired variant of D49); programs outside fragOk are tied by the prog stream']
 ASSUMPTIONS = ['NF-prog of DESIGN.md section 5 (no recursion, no delimiter token inside a delimited argument, no $ in arguments, \\newcommand only on fresh names, parameter character #)',
                'macro names of generated programs are not predefined by plasTeX (checked at start)']
 RULE = ('seeded generation from the grammar of the quantifier: parameter texts with 0-9 parameters (delimited by 1-2 tokens / undelimited, literal prefix), calls with single-token, braced, '
@@ -687,6 +690,9 @@ def corpus():
         P('\\def\\zqb #1{[#1]}', '\\newcommand\\zqa [1][d]{\\zqb #1}', '\\zqa [{xy}]', '\\zqa '),
         # D51: a default that is one group is stored without its braces
         P('\\def\\zqb #1{[#1]}', '\\newcommand\\zqa [1][{xy}]{\\zqb #1}', '\\zqa ', '\\zqa [p]'),
+        # D52: ## in macros without parameter text, nested three deep
+        P('\\def\\zqa {\\def\\zqb ##1{\\def\\zqc ####1{[##1|####1]}}}', '\\zqa ', '\\zqb x', '\\zqc y'),
+        P('\\def\\zqa {\\def\\zqb {\\def\\zqc ####1{<####1>}}}', '\\zqa ', '\\zqb ', '\\zqc y'),
         # D50: \expandafter in front of a macro whose expansion is empty
         P('\\def\\zqa #1{}', '\\def\\zqe #1{[#1]}', '\\expandafter\\zqe \\zqa AB'),
         P('\\def\\zqa #1#2#3#4#5#6#7#8#9{#9#8#7#6#5#4#3#2#1}', '\\zqa 123456789'),
@@ -701,7 +707,14 @@ def corpus():
     ]
 
 
+FRAG_STATS = {'prog_spec_defined': 0, 'prog_in_proved_fragment': 0}
+
+
 def nontrivial(o):
+    if o.case.stream == 'prog' and o.spec.startswith('ok:'):
+        FRAG_STATS['prog_spec_defined'] += 1
+        if len(o.aux) > 1 and o.aux[1].startswith('ok:'):
+            FRAG_STATS['prog_in_proved_fragment'] += 1
     if not o.spec.startswith('ok:'):
         return False
     if o.case.stream == 'prog':
@@ -846,6 +859,15 @@ def judge(o):
             if o.corr_ok:
                 o.note = 'implementation follows the repaired variant of D49'
         o.prop_ok = spec.startswith('-') or impl_ == spec
+        if len(o.aux) > 1 and _norm(o.aux[1]).startswith('ok:'):
+            # the program lies in the fragment of run_eq_texRun_language_partial (texRun fragOk defined): the theorem, executed
+            # by the driver, says repaired model == fragment evaluator == full evaluator; the real code must print the same
+            # unless it shows the known finding D49 (then it equals the as-is model, checked above)
+            frag, rep = _norm(o.aux[1]), _norm(o.aux[0])
+            if not (frag == spec == rep):
+                o.corr_ok = False
+                o.note = 'driver contradicts run_eq_texRun_language_partial / fragment_run_is_texProgram_partial: frag=%s spec=%s repaired=%s' % (frag[:60], spec[:60], rep[:60])
+            o.case.meta = dict(o.case.meta or {}, in_proved_fragment=True)
         if model == 'err:fuel':
             o.corr_ok = True
         if spec.startswith('-') and _PRIM_REDEF.search(''.join(chr(int(x)) for x in o.case.line.split()[1:])):
@@ -858,6 +880,13 @@ def judge(o):
         else:
             o.corr_ok = (impl_ == model)
         o.prop_ok = spec.startswith('-') or impl_ == spec
+
+
+def extra_checks(ctx):
+    """no further oracle: reports how many generated programs lie in the fragment for which program-level equality is PROVED
+    (run_eq_texRun_language_partial) among those on which the Spec evaluator is defined"""
+    ctx.say('programs with the Spec defined: %(prog_spec_defined)d, of which inside the proved fragment: %(prog_in_proved_fragment)d' % FRAG_STATS)
+    return [], dict(FRAG_STATS, evaluations=0, distinct_nontrivial=0, samples=[], stream='prog (fragment coverage)')
 
 
 # ---------------------------------------------------------------- shrink / search
